@@ -128,6 +128,13 @@ func (gc *GarbageCollector) GarbageCollectWatchesNow(ctx context.Context) error 
 
 	stop := make([]engine.WatchID, 0)
 	for _, wid := range running {
+		// Only watches of composed resources are started on demand and are
+		// ours to collect. The controller's watches of the XRs themselves and
+		// of composition revisions are never referenced by an XR; stopping
+		// them would leave the controller deaf until it is restarted.
+		if wid.Type != engine.WatchTypeComposedResource {
+			continue
+		}
 		if !used[wid] {
 			stop = append(stop, wid)
 		}
